@@ -200,6 +200,27 @@ def work_thermo(arg):
                 out['nt'] += 1
                 if not o.ok or abs(o.value * fac - ps) > 1e-3 * ps:
                     v('unit-argument', f'saturation_pressure({T:.3f}, unit={unit!r}) = {o.value if o.ok else o.brief()} (p_sat = {ps} Pa)', ps / fac, o.value if o.ok else o.brief(), {'unit': unit})
+                # the alias methods answer exactly like the methods they stand for, whatever the argument form
+                if o.ok:
+                    for form, call_ in (('positional', lambda: a.pressure_saturation(T, unit)), ('keyword', lambda: a.pressure_saturation(temp=T, unit=unit)),
+                                        ('positional, calculate=True', lambda: a.pressure_saturation(T, unit, True))):
+                        oa = core.call(call_)
+                        out['ev'] += 1
+                        out['nt'] += 1
+                        if not oa.ok or oa.value != o.value:
+                            v('alias-method', f'pressure_saturation({T:.3f}, unit={unit!r}) [{form}] = {oa.value if oa.ok else oa.brief()} but saturation_pressure gives {o.value}',
+                              o.value, oa.value if oa.ok else oa.brief(), {'alias': 'pressure_saturation'})
+            hv = core.call(a.enthalpy_vaporisation, T)
+            for form, call_ in (('temp positional', lambda: a.enthalpy_liquefaction(T)), ('temp keyword', lambda: a.enthalpy_liquefaction(temp=T)),
+                                ('press keyword', lambda: a.enthalpy_liquefaction(press=ps)), ('vaporisation, press keyword', lambda: a.enthalpy_vaporisation(press=ps)),
+                                ('vaporisation, positional temp and press None', lambda: a.enthalpy_vaporisation(T, None, True))):
+                oa = core.call(call_)
+                out['ev'] += 1
+                out['nt'] += 1
+                tol_ = 1e-6 if 'press' in form and 'None' not in form else 0.0
+                if hv.ok and (not oa.ok or abs(oa.value - hv.value) > tol_ * abs(hv.value)):
+                    v('alias-method', f'enthalpy_liquefaction/vaporisation [{form}] at {T:.3f} K = {oa.value if oa.ok else oa.brief()} but enthalpy_vaporisation({T:.3f}) gives {hv.value}',
+                      hv.value, oa.value if oa.ok else oa.brief(), {'alias': 'enthalpy'})
     # ordered pairs of property calls at one temperature: the shared thermodynamic state must not leak between calls
     T = tt + 0.5 * (tc - tt)
     T2 = tt + 0.8 * (tc - tt)
